@@ -346,16 +346,11 @@ func TestVerifC13Lab(t *testing.T) {
 		if zoneQuota {
 			e = "RCapacityZone"
 		}
-		fkey := ""
-		if !o.infra && o.up2 == 0 && o.rc2 == dns.RcodeServerFailure {
-			fkey = "shed-load-recorded"
-		}
 		emit(map[string]any{
 			"k":            "lab-shed-load",
 			"coq":          fmt.Sprintf("CaseShed %s %d %s %d %d %s %d", e, o.rc1, vC13EdeCoq(o.ede1), o.up1, o.rc2, vC13EdeCoq(o.ede2), o.up2),
 			"nontrivial":   true,
 			"inconclusive": o.infra,
-			"fkey":         fkey,
 			"desc": map[string]any{"capacity": e, "query": name,
 				"while_at_capacity": fmt.Sprintf("rcode=%d ede=%d authority_packets=%d", o.rc1, o.ede1, o.up1),
 				"after_load_gone":   fmt.Sprintf("rcode=%d ede=%d authority_packets=%d", o.rc2, o.ede2, o.up2), "note": o.note},
